@@ -46,6 +46,7 @@ func NewReader(r io.Reader) io.ReadCloser {
 		rr.rBuf = ur
 	} else {
 		rr.rBuf = bufio.NewReader(r)
+		rr.ownBuf = true
 	}
 	return rr
 }
@@ -61,17 +62,22 @@ type decompressor struct {
 	peekSize      int
 	eof           bool
 	outputFull    bool // the last decode pass ended on a full output window
+	ownBuf        bool // rBuf was allocated by this Reader (not handed in by the caller)
 }
 
 func (r *decompressor) Reset(under io.Reader, _ []byte) error {
 	r.r = under
 	if ur, ok := under.(*bufio.Reader); ok {
 		r.rBuf = ur
+		r.ownBuf = false
 	} else {
-		if r.rBuf != nil {
+		// only a buffer this Reader allocated itself may be re-targeted:
+		// one handed in by the caller is the caller's
+		if r.rBuf != nil && r.ownBuf {
 			r.rBuf.Reset(under)
 		} else {
 			r.rBuf = bufio.NewReader(under)
+			r.ownBuf = true
 		}
 	}
 
